@@ -59,11 +59,11 @@ var voteMenu = [][]sig{
 // Cfg is one configuration (one search).
 type Cfg struct {
 	Name     string  `json:"name"`
-	Vals     []int   `json:"validators"`       // validators the alphabet acts on
-	PreAct   []int   `json:"pre_activated"`    // activated in the base state (at its block time)
-	InitVote int     `json:"initial_vote"`     // index into voteMenu, current at the base state
-	Votes    []int   `json:"votes"`            // vote events offered
-	Phase    int     `json:"phase"`            // extra 3-second blocks after the base update block (height 4)
+	Vals     []int   `json:"validators"`    // validators the alphabet acts on
+	PreAct   []int   `json:"pre_activated"` // activated in the base state (at its block time)
+	InitVote int     `json:"initial_vote"`  // index into voteMenu, current at the base state
+	Votes    []int   `json:"votes"`         // vote events offered
+	Phase    int     `json:"phase"`         // extra 3-second blocks after the base update block (height 4)
 	Exp      uint64  `json:"expiration_blocks"`
 	MaxReq   int     `json:"max_requests"`
 	MaxVote  int     `json:"max_votes"`
